@@ -210,6 +210,8 @@ def _sat(lo, hi, ne, wop, wc):
 
 # proven invariants of persistent fields (E3), installed by a rule after it has proved them: [(compiled regex, lo, hi)]
 AXIOM_BOUNDS = []
+# proven relational invariants of persistent fields: callables (atoms, const) -> True when the form is known >= 0
+AXIOM_FORMS = []
 
 
 def d_bounds(d, lkey):
@@ -316,6 +318,14 @@ def d_nonneg(d, form, depth=0):
     if not at:
         return c >= 0
     items = sorted(at.items())
+    for ax in AXIOM_FORMS:
+        if ax(at, c):
+            return True
+    if len(items) == 1 and abs(items[0][1]) > 1 and depth == 0:
+        # v*x + c >= 0 with |v| > 1: the same question about x alone (integers)
+        k, v = items[0]
+        if d_nonneg(d, ({k: 1 if v > 0 else -1}, c // abs(v)), depth + 1):
+            return True
     if len(items) == 1:
         k, v = items[0]
         if v == 1 and d_holds(d, ">=", k, -c):
@@ -357,7 +367,7 @@ def d_nonneg(d, form, depth=0):
     if depth >= 3:
         return False
     # subtract a known non-negative form that shares atoms with the goal
-    if depth <= 1:
+    if depth <= 2:
         keys = set(at)
         for f in d:
             if f.kind != "cmp" or isinstance(f.key[2], int) or f.op in ("==", "!="):
@@ -378,7 +388,12 @@ def d_nonneg(d, form, depth=0):
             if not (set(ga) & keys):
                 continue
             rest = _lin.sub((at, c), (ga, g[1]))
-            if len(rest[0]) < len(at) + 1 and d_nonneg(d, rest, depth + 2):
+            if depth == 2:
+                # at this depth only a goal that is one of the known forms outright (plus a non-negative constant)
+                if not rest[0] and rest[1] >= 0:
+                    return True
+                continue
+            if len(rest[0]) <= len(at) + 1 and d_nonneg(d, rest, depth + 2):
                 return True
     # x with negative coefficient defined as MIN(A, B): x <= A and x <= B
     for k, v in items:
@@ -768,15 +783,40 @@ def collapse(ds):
     for d in ds:
         cand |= d
     keep = set()
+    NEGREL = {"!=": "==", "==": "!=", "<": ">=", ">=": "<", ">": "<=", "<=": ">"}
     for f in cand:
         if f.kind == "imp":
-            if all(f in d for d in ds):
+            # a conditional fact also holds where its premise is known to be false
+            if all(f in d or d_holds(d, NEGREL[f.relop], f.key[1], f.c) for d in ds):
                 keep.add(f)
         elif f.kind in ("hist", "alt"):
             if all(f in d for d in ds):
                 keep.add(f)
         elif all((f in d) or d_holds(d, f.op, f.key[0], f.key[2]) for d in ds):
             keep.add(f)
+    # a local flag that is a known constant on some of the merged paths (`ret = 0` on the early exits of an inlined
+    # predicate): what the other paths know survives as "flag != constant implies ..."
+    sel = {}
+    for d in ds:
+        for f in d:
+            if f.kind == "cmp" and f.op == "==" and isinstance(f.key[2], int) and isinstance(f.key[0], str):
+                l = sk(f.l)
+                if l.get("k") == "Ref" and l["ref"].get("rk") == "local" and (l.get("t") or {}).get("bits", 0) >= 8 \
+                        and not (l.get("t") or {}).get("ptr"):
+                    sel.setdefault((f.key[0], f.key[2]), f)
+    for (vk, cv), sf in sorted(sel.items(), key=repr):
+        rest = [d for d in ds if sf not in d]
+        if not rest or len(rest) == len(ds):
+            continue
+        n = 0
+        for g in sorted(cand, key=repr):
+            if n >= 16:
+                break
+            if g in keep or g.kind != "cmp" or vk in g.vars or g.key[0] == vk:
+                continue
+            if all((g in d) or d_holds(d, g.op, g.key[0], g.key[2]) for d in rest):
+                keep.add(Imp(sf.l, "!=", cv, g))
+                n += 1
     # interval hull of constant bounds
     lks = {}
     for d in ds:
@@ -961,6 +1001,13 @@ class Analysis:
                         # tested on the copy say nothing about the original
                         continue
                     new.add(Fact("==", lhs, rv))
+                    if rv.get("k") == "Cond":
+                        # `x = c ? a : b` on a path that has settled c (the CFG branches on c before the join)
+                        tc = truth_in(frozenset(new), rv["a"][0])
+                        arm = _val(rv["a"][1]) if tc is True else (_val(rv["a"][2]) if tc is False else None)
+                        if arm is not None and is_pure(arm) and arm.get("k") not in ("InitList", "Str", "Cond") and \
+                                lp[0][2] not in _rvars(arm) and not _narrows(lhs.get("t"), arm, d):
+                            new.add(Fact("==", lhs, arm))
                     if rv.get("k") == "Cond" and _min_unsigned(rv) and (lhs.get("t") or {}).get("bits", 0) >= 32:
                         # MIN evaluated in an unsigned type: the smaller operand is a non-negative value
                         new.add(Fact(">=", lhs, mkint(0)))
@@ -1009,6 +1056,18 @@ class Analysis:
                     if _sat(lo, hi, ne, g.relop, g.c):
                         new.add(g.fact)
         return frozenset(new)
+
+    def _cond_joins(self):
+        """Blocks in which a conditional expression other than a MIN is evaluated: the two ways of getting there are
+        kept apart until the value has been taken."""
+        cj = getattr(self, "_cj", None)
+        if cj is None:
+            cj = set()
+            for b in self.f.blocks.values():
+                if any(sk(e).get("k") == "Cond" and not _min_arms(sk(e)) for e in b.elems):
+                    cj.add(b.id)
+            self._cj = cj
+        return cj
 
     def unsigned_compare(self, b, si):
         """(fact, key of the signed operand) for a two-way branch on a comparison in which a signed value was converted
@@ -1098,7 +1157,8 @@ class Analysis:
                 eds = set()
                 for d in out:
                     ef_d = ef
-                    if su is not None and d_holds(d, ">=", su[0].l if False else su[1], 0):
+                    if su is not None and (d_holds(d, ">=", su[1], 0) or
+                                           ((AXIOM_FORMS or AXIOM_BOUNDS) and d_nonneg(d, ({su[1]: 1}, 0)))):
                         # a signed value compared as unsigned, but known not to be negative here: the comparison
                         # means what it says
                         ef_d = list(ef) + [su[0]]
@@ -1114,7 +1174,10 @@ class Analysis:
                     for si, s2 in enumerate(pb.succs):
                         if s2 == s and (p, si) in EDGE:
                             acc |= EDGE[(p, si)]
-                acc = simplify(acc)
+                if s not in self._cond_joins():
+                    acc = simplify(acc)
+                else:
+                    acc = {d for d in acc if not d_contradictory(d)}
                 if s in heads:
                     if s in IN:
                         acc = collapse(acc | IN[s])
